@@ -780,11 +780,6 @@ def nontrivial(case, verdict):
     return not verdict.get('branch', '').endswith(':pass')
 
 
-def classify(case, verdict):
-    """name of the known finding a failing case is an instance of (decided by the Lean driver)"""
-    return verdict.get('known') or None
-
-
 def shrink(case):
     base = {k: v for k, v in case.items() if not k.startswith('impl')}
 
